@@ -61,7 +61,7 @@ def build_soc(cfg):
     from litex.soc.integration.soc_core import SoCCore
     from litex.soc.integration import soc as socmod
     from litex.soc.interconnect import wishbone
-    from litex.soc.interconnect.csr import CSRStorage, CSRStatus, AutoCSR
+    from litex.soc.interconnect.csr import CSRStorage, CSRStatus, AutoCSR, CSRField
     socmod.SoCError.__init__ = lambda self, *a, **k: None
     io = [('sys_clk', 0, Pins(1)), ('sys_rst', 0, Pins(1)), ('serial', 0, Subsignal('tx', Pins(1)), Subsignal('rx', Pins(1)))]
 
@@ -73,6 +73,9 @@ def build_soc(cfg):
             self.c = CSRStatus(9, name="c")
             self.d = CSRStorage(64, atomic_write=True, name="d")
             self.e = CSRStorage(9, name="e")
+            self.f = CSRStorage(name="f", fields=[CSRField("lo", size=3, offset=0), CSRField("mid", size=5, offset=8, reset=0x11), CSRField("hi", size=1, offset=20),
+                                                  CSRField("top", size=4)])       # top is auto-placed after hi
+            self.g = CSRStatus(name="g", fields=[CSRField("ready", size=1, offset=0), CSRField("code", size=6, offset=4)])
             self.mem = Memory(32, 8, init=list(range(1, 9)), name="pmem")
             self.specials += self.mem
 
@@ -110,6 +113,110 @@ def parse_accessors(header):
     return out
 
 
+def parse_field_macros(header):
+    """{(REGION_REG, FIELD): (offset, size)} from the CSR_<REGION>_<REG>_<FIELD>_OFFSET/_SIZE macros"""
+    offs, sizes = {}, {}
+    for m in re.finditer(r"#define CSR_(\w+)_(OFFSET|SIZE) (\d+)\n", header):
+        (offs if m.group(2) == "OFFSET" else sizes)[m.group(1)] = int(m.group(3))
+    return {k: (offs[k], sizes[k]) for k in offs if k in sizes}
+
+
+def other_formats_disagree(soc, j, header, csv, csr_base, fieldmac):
+    """textual cross-check of every other published artefact with the JSON map (whose addresses are the ones decided against the hardware):
+    mem.h, linker regions, SVD (registers, memory regions, field bit ranges), soc.h / CSV constants, field extract/replace helpers"""
+    from litex.soc.integration import export
+    import xml.etree.ElementTree as ET
+    bad = []
+    mems = j["memories"]
+    # mem.h
+    mh = export.get_mem_header(soc.mem_regions)
+    for nm, info in mems.items():
+        b = re.search(r"#define %s_BASE 0x([0-9a-f]+)L\n#define %s_SIZE 0x([0-9a-f]+)\n" % (nm.upper(), nm.upper()), mh)
+        if not b or int(b.group(1), 16) != info["base"] or int(b.group(2), 16) != info["size"]:
+            bad.append(("mem.h", nm))
+    mr = re.search(r'#define MEM_REGIONS "(.*)"', mh)
+    listed = {}
+    if mr:
+        for ent in mr.group(1).split("\\n"):
+            f = ent.split()
+            if len(f) == 3:
+                listed[f[0].lower()] = (int(f[1], 16), int(f[2], 16))
+    for nm, info in mems.items():
+        if listed.get(nm) != (info["base"], info["size"]):
+            bad.append(("mem.h MEM_REGIONS", nm))
+    # linker regions
+    lr = export.get_linker_regions(soc.mem_regions)
+    for nm, info in mems.items():
+        b = re.search(r"\t%s : ORIGIN = 0x([0-9a-f]+), LENGTH = 0x([0-9a-f]+)\n" % re.escape(nm), lr)
+        if not b or int(b.group(1), 16) != info["base"] or int(b.group(2), 16) != info["size"]:
+            bad.append(("linker", nm))
+    # CSV memory regions and constants, soc.h constants
+    for line in csv.splitlines():
+        f = line.split(",")
+        if f[0] == "memory_region" and (mems.get(f[1], {}).get("base"), mems.get(f[1], {}).get("size")) != (int(f[2], 16), int(f[3])):
+            bad.append(("csv memory_region", f[1]))
+        if f[0] == "constant" and str(j["constants"].get(f[1])) != f[2] and not (j["constants"].get(f[1]) is None and f[2] in ("", "None")):
+            bad.append(("csv constant", f[1]))
+        if f[0] == "csr_base" and j["csr_bases"].get(f[1]) != int(f[2], 16):
+            bad.append(("csv csr_base", f[1]))
+    sh = export.get_soc_header(soc.constants)
+    for nm, val in soc.constants.items():
+        if isinstance(val, int):
+            if not re.search(r"#define %s %d\n" % (re.escape(nm), val), sh) or j["constants"].get(nm.lower()) != val:
+                bad.append(("soc.h constant", nm))
+    # SVD
+    try:
+        root = ET.fromstring(export.get_csr_svd(soc))
+    except Exception as e:
+        bad.append(("svd", "unparsable: %s" % e))
+        root = None
+    if root is not None:
+        busw = soc.csr.data_width
+        per = {p_.findtext("name"): p_ for p_ in root.iter("peripheral")}
+        for rname, region in soc.csr_regions.items():
+            if not isinstance(region.obj, list):
+                continue
+            p_ = per.get(rname.upper())
+            if p_ is None:
+                bad.append(("svd peripheral missing", rname))
+                continue
+            base = int(p_.findtext("baseAddress"), 16)
+            got = [base + int(r_.findtext("addressOffset"), 16) for r_ in p_.iter("register")]
+            want = []
+            for c in region.obj:
+                info = j["csr_registers"].get(rname + "_" + c.name)
+                if info is None:
+                    bad.append(("json register missing", rname + "_" + c.name))
+                    continue
+                want += [info["addr"] + 4 * k for k in range(info["size"])]
+            if got != want:
+                bad.append(("svd register addresses", rname))
+            # field bit ranges of single-word registers with fields
+            regs = {r_.findtext("name"): r_ for r_ in p_.iter("register")}
+            for c in region.obj:
+                if hasattr(c, "fields") and c.size <= busw and c.name.upper() in regs:
+                    for fl in regs[c.name.upper()].iter("field"):
+                        key = "%s_%s_%s" % (rname.upper(), c.name.upper(), fl.findtext("name").upper())
+                        if key in fieldmac:
+                            off, size = fieldmac[key]
+                            if (int(fl.findtext("lsb")), int(fl.findtext("msb"))) != (off, off + size - 1) or fl.findtext("bitRange") != "[%d:%d]" % (off + size - 1, off):
+                                bad.append(("svd field range", key))
+        svdm = {m.findtext("name").lower(): (int(m.findtext("baseAddress"), 16), int(m.findtext("size"), 16)) for m in root.iter("memoryRegion")}
+        for nm, info in mems.items():
+            if svdm.get(nm) != (info["base"], info["size"]):
+                bad.append(("svd memoryRegion", nm))
+    # field helper functions: mask and shift of *_extract / *_replace equal the macros
+    for m in re.finditer(r"static inline uint32_t (\w+)_extract\(uint32_t oldword\) \{\n\tuint32_t mask = 0x([0-9a-f]+);\n\treturn \(\(oldword >> (\d+)\) & mask\);", header):
+        key = m.group(1).upper()
+        if key in fieldmac and (int(m.group(3)), int(m.group(2), 16)) != (fieldmac[key][0], (1 << fieldmac[key][1]) - 1):
+            bad.append(("field extract helper", key))
+    for m in re.finditer(r"static inline uint32_t (\w+)_replace\(uint32_t oldword, uint32_t plain_value\) \{\n\tuint32_t mask = 0x([0-9a-f]+);\n\treturn \(oldword & \(~\(mask << (\d+)\)\)\) \| \(\(mask & plain_value\) << (\d+)\);", header):
+        key = m.group(1).upper()
+        if key in fieldmac and (int(m.group(3)), int(m.group(4)), int(m.group(2), 16)) != (fieldmac[key][0], fieldmac[key][0], (1 << fieldmac[key][1]) - 1):
+            bad.append(("field replace helper", key))
+    return bad
+
+
 def build(cfgname, K):
     from litex.soc.integration import export
     from litex.soc.interconnect.csr import CSRStorage, CSRStatus
@@ -118,9 +225,10 @@ def build(cfgname, K):
     cdw = cfg.get("csr_data_width", 32)
     csr_base = soc.mem_regions['csr'].origin
     j = json.loads(export.get_csr_json(soc.csr_regions, soc.constants, soc.mem_regions))
-    header = export.get_csr_header(soc.csr_regions, soc.constants, csr_base=csr_base)
+    header = export.get_csr_header(soc.csr_regions, soc.constants, csr_base=csr_base, with_fields_access_functions=True)
     csv = export.get_csr_csv(soc.csr_regions, soc.constants, soc.mem_regions)
     acc = parse_accessors(header)
+    fieldmac = parse_field_macros(header)
     # textual cross-check of the three formats (addresses of every register)
     text_bad = []
     for line in csv.splitlines():
@@ -133,6 +241,7 @@ def build(cfgname, K):
         a = acc.get(nm)
         if a and a["read"] and (csr_base + a["read"][0][0]) != info["addr"]:
             text_bad.append(("header", nm))
+    text_bad += other_formats_disagree(soc, j, header, csv, csr_base, fieldmac)
     top = Mon()
     top.submodules.soc = soc
     top.submodules.seq = seq = Seq(ext)
@@ -205,6 +314,24 @@ def build(cfgname, K):
                     return t if bad else None
             return None
         zbad["write_%s_hits_exactly_that_register" % nm] = (goal_w, chk_w)
+        flds = [(fl, fieldmac.get("%s_%s" % (nm.upper(), fl.name.upper()))) for fl in (c.fields.fields if hasattr(c, "fields") else [])]
+        if flds and cdw == 32:
+            def goal_f(U, nm=nm, c=c, wops=wops, flds=flds):
+                V = U.frames[0][Vsig]
+                ops = [(True, csr_base + off, word(V, sh)) for (sh, off) in wops]
+                mism = lambda fr: z3.Or(*[(fr[getattr(c.fields, fl.name)] != z3.Extract(om[0] + om[1] - 1, om[0], V)) if om else z3.BoolVal(True) for fl, om in flds])
+                return z3.And(*setup(U, ops), at_done(U, mism))
+
+            def chk_f(rows, stim, c=c, flds=flds):
+                V = stim[1][Vsig]
+                for t in range(len(rows)):
+                    if rows[t][seq.done] == 1:
+                        for fl, om in flds:
+                            if om is None or rows[t][getattr(c.fields, fl.name)] != ((V >> om[0]) & ((1 << om[1]) - 1)):
+                                return t
+                        return None
+                return None
+            zbad["fields_of_%s_sit_at_published_offset_and_size" % nm] = (goal_f, chk_f)
         rops, rsh = a["read"] if a["read"] else ([], [])
         if rops and len(wops) + len(rops) <= NOPS and cdw == 32:
             def goal_r(U, nm=nm, c=c, wops=wops, rops=rops):
